@@ -151,6 +151,7 @@ func checkC10(w *World, r *Report) {
 	checkParentCallContext(w, r)
 	checkParentRendersNow(w, r)
 	checkOverrideLookup(w, r)
+	checkExtendingRendersNothingElse(w, r)
 	checkResolvesThroughLoad(w, r, "R10.5", []string{"ExtendsNode"}, "a parent remembered from an earlier render is used although the parent name is an expression (or the engine would reload it): the child is laid out in the wrong parent")
 
 	// ---- R10.2
@@ -582,4 +583,77 @@ func checkOverrideLookup(w *World, r *Report) {
 		}
 	}
 	r.floor("render sites of a block's own body", n, 1)
+}
+
+// checkExtendingRendersNothingElse — R10.7: a template that extends another produces nothing
+// itself.  In every function that hands its output writer to (*ExtendsNode).Render, no other
+// call that receives that writer shares a control-flow path with the hand-over (before it or
+// after it): whatever a child renders or writes there lands in front of / behind the parent's
+// output, whereas everything outside the blocks of an extending template is dropped.
+func checkExtendingRendersNothingElse(w *World, r *Report) {
+	extRender := w.ssaFunc(w.method("ExtendsNode", "Render"))
+	instrReaches := func(a, b ssa.Instruction) bool {
+		if a.Block() == b.Block() && instrIndex(a) < instrIndex(b) {
+			return true
+		}
+		for _, s := range a.Block().Succs {
+			if blockReaches(s, b.Block()) {
+				return true
+			}
+		}
+		return false
+	}
+	n := 0
+	for _, fn := range w.pkgFuncs() {
+		var writer *ssa.Parameter
+		for _, p := range fn.Params {
+			if isNamed(p.Type(), "io", "Writer") {
+				writer = p
+			}
+		}
+		if writer == nil {
+			continue
+		}
+		passes := func(c ssa.CallInstruction) bool {
+			if c.Common().IsInvoke() && unspill(c.Common().Value) == ssa.Value(writer) {
+				return true
+			}
+			for _, a := range c.Common().Args {
+				if unspill(a) == ssa.Value(writer) {
+					return true
+				}
+			}
+			return false
+		}
+		var hand []ssa.CallInstruction
+		var others []ssa.CallInstruction
+		instrsOf(fn, func(in ssa.Instruction) {
+			c, ok := in.(ssa.CallInstruction)
+			if !ok || !passes(c) {
+				return
+			}
+			if c.Common().StaticCallee() == extRender && extRender != nil {
+				hand = append(hand, c)
+			} else {
+				others = append(others, c)
+			}
+		})
+		for _, h := range hand {
+			n++
+			construct := "the extending template renders nothing besides its parent"
+			bad := ""
+			for _, o := range others {
+				if instrReaches(o, h) || instrReaches(h, o) {
+					bad = w.posOf(o.Pos())
+					break
+				}
+			}
+			if bad == "" {
+				r.ok("R10.7", ssaName(fn), construct, w.posOf(h.Pos()), fmt.Sprintf("none of the %d other uses of the writer shares a path with the hand-over", len(others)), true)
+			} else {
+				r.bad("R10.7", ssaName(fn), construct, w.posOf(h.Pos()), "the call at "+bad+" receives the output writer on a path that also hands the writer to the extends node: what stands outside the blocks of an extending template (control structures, includes, applied filters) is rendered into the output instead of being dropped")
+			}
+		}
+	}
+	r.floor("hand-overs of the output to an extends node", n, 1)
 }
